@@ -158,6 +158,8 @@ config_t *make_config(const std::string &tmpl)
         config_set_str(c, "dict", L.dict_path.c_str());
     if (tmpl == "enc" || tmpl == "frc")
         config_set_bool(c, "compallsen", 1);
+    if (tmpl == "env")
+        config_set_bool(c, "varnorm", 1);
     return c;
 }
 
